@@ -1,8 +1,11 @@
 package main
 
 import (
+	"bytes"
 	"fmt"
 	"github.com/bluenviron/gomavlib/v3"
+	"github.com/bluenviron/gomavlib/v3/pkg/frame"
+	"io"
 	"math/rand"
 	"reflect"
 	"strings"
@@ -29,6 +32,7 @@ func x25sum(parts ...[]byte) string {
 
 func genC02(o *hx.Out, tier string) {
 	defer c02DialectChanged(o)
+	defer c02Reinitialize(o)
 	r := hx.NewRand(2)
 	// (a) the checksum step: every 2-byte prefix reaches a distinct register state (checked by
 	// the driver: 65536 distinct sums), then one more byte.
@@ -200,4 +204,61 @@ func c02DialectChanged(o *hx.Out) {
 	damagedC[len(damagedC)-1] ^= 0x40
 	run("second node, same dialect value with other messages", [][]byte{newA, oldA, newC, damagedC},
 		"F:MessageUserARedefined P F:MessageUserC P")
+}
+
+// c02Reinitialize: a frame.ReadWriter value initialised a second time (another stream, another
+// dialect, or a dialect where there was none) gates by what it was given the second time.
+func c02Reinitialize(o *hx.Out) {
+	r := hx.NewRand(203)
+	dA := &dialect.Dialect{Version: 3, Messages: []message.Message{&MessageUserA{}, &MessageUserB{}}}
+	dB := &dialect.Dialect{Version: 3, Messages: []message.Message{&MessageUserARedefined{}, &MessageUserC{}}}
+	rwA := &dialect.ReadWriter{Dialect: dA}
+	rwB := &dialect.ReadWriter{Dialect: dB}
+	if rwA.Initialize() != nil || rwB.Initialize() != nil {
+		return
+	}
+	frameB, _ := writeFrame(rwB, validFrame(r, rwB, hx.RandMessage(r, &MessageUserARedefined{}, 1), true, nil))
+	frameC, _ := writeFrame(rwB, validFrame(r, rwB, hx.RandMessage(r, &MessageUserC{}, 1), true, nil))
+	frameA, _ := writeFrame(rwA, validFrame(r, rwA, hx.RandMessage(r, &MessageUserA{}, 1), true, nil))
+	damaged := append([]byte(nil), frameC...)
+	damaged[len(damaged)-1] ^= 0x04
+	stream := append(append(append(append([]byte(nil), frameB...), frameA...), frameC...), damaged...)
+	for _, first := range []*dialect.ReadWriter{nil, rwA} {
+		var sink bytes.Buffer
+		rw := &frame.ReadWriter{ByteReadWriter: struct {
+			io.Reader
+			io.Writer
+		}{bytes.NewReader(frameA), &sink}, DialectRW: first}
+		if err := rw.Initialize(); err != nil {
+			continue
+		}
+		rw.Read() //nolint:errcheck
+		// second initialisation: another stream, dialect B
+		rw.ByteReadWriter = struct {
+			io.Reader
+			io.Writer
+		}{bytes.NewReader(stream), &sink}
+		rw.DialectRW = rwB
+		var evs []string
+		if err := rw.Initialize(); err != nil {
+			evs = append(evs, "REINIT-FAILED")
+		} else {
+			for i := 0; i < 6; i++ {
+				fr, err := rw.Read()
+				if err == io.EOF {
+					break
+				}
+				if err != nil {
+					evs = append(evs, "P")
+					continue
+				}
+				evs = append(evs, "F:"+reflect.TypeOf(fr.GetMessage()).Elem().Name())
+			}
+		}
+		tag := "no dialect first"
+		if first != nil {
+			tag = "another dialect first"
+		}
+		o.Add("frame.ReadWriter initialised twice", strings.Join(evs, " "), "expect", "F:MessageUserARedefined P F:MessageUserC P", tag)
+	}
 }
